@@ -2,6 +2,7 @@ package props
 
 import (
 	"fmt"
+	"strings"
 	"sync"
 	"time"
 
@@ -152,6 +153,20 @@ func c06Config(c *ev.Ctx, cfg string) (int64, int64, int64) {
 				}
 			}
 			check("version-id", Ref(v.T, v.N), trunc, document.WithVersionID(Ref(v.T, v.N)))
+		}
+		// near misses of a known version id are unknown ids: letter case, truncation, padding, prefix / suffix
+		for _, v := range cs.Ops {
+			if !v.Pub || i%4 != 0 {
+				continue
+			}
+			ref := Ref(v.T, v.N)
+			for _, bad := range []string{strings.ToUpper(ref), strings.Title(ref), ref[:len(ref)-1], ref[1:], ref + " ", " " + ref, ref + "0", "x" + ref} {
+				localCuts++
+				if got, _, err := e.Resolve(cs.Ops, document.WithVersionID(bad)); err == nil {
+					c.Violation("near-miss-version-id-accepted", map[string]interface{}{"store": e.Describe(cs.Ops), "version_id": bad, "known_version_id": ref, "observed": got})
+				}
+			}
+			break // one operation per store is enough: the ids have one format
 		}
 		// unknown version id must be an error
 		localCuts++
